@@ -46,6 +46,11 @@ func runTreeSetNav[T comparable](c *core.Ctx, d *Dom[T]) {
 }
 
 func runC02(c *core.Ctx) {
+	if plans := exhaustivePlans(c.Tier); c.Index < len(plans) {
+		p := plans[c.Index]
+		exhaustiveTree(c, p.label, p.mk, p.k, 400000, func(m *KVMon[int, int]) { m.Nav = true }, nil)
+		return
+	}
 	kind := navKinds[c.Index%len(navKinds)]
 	strKeys := (c.Index/len(navKinds))%5 == 4
 	if kind == "TreeSet" {
@@ -71,12 +76,14 @@ func init() {
 		Title: "Comparator-ordered containers enumerate and navigate in sorted order",
 		Cases: func(tier string) int { return tierN(tier, 24000, 480000) },
 		Run:   runC02,
-		Rule: "the C01 workload families on RedBlackTree, AVLTree, BTree, TreeMap, TreeBidiMap and random Add/Remove histories on TreeSet, with natural, reversed and coarsened comparators over int and string keys. " +
+		Rule: "the first cases explore small key universes exhaustively (every reachable tree state x every Put/Remove, see exhaustive_small_scope) under the navigation oracles; the others run " +
+			"the C01 workload families on RedBlackTree, AVLTree, BTree, TreeMap, TreeBidiMap and random Add/Remove histories on TreeSet, with natural, reversed and coarsened comparators over int and string keys. " +
 			"After every call: Keys() (TreeSet/TreeBidiMap Values() under the value comparator) strictly ascending and equal to the sorted model, a full iterator walk equal to it, every extreme accessor (Left/Right, Min/Max, LeftKey/RightKey) against the model, " +
 			"and Floor/Ceiling for every present key, every absent alphabet key, every between-neighbours probe, min-1 and max+1 (all probes while n <= 24, 8 random ones otherwise). " +
 			"Every case is non-trivial (>= 20 mutating calls each followed by these checks); distinct = distinct hash of the call list.",
 		Floors: func(tier string, m map[string]int64) []string {
 			f := &floorCheck{m: m}
+			exhaustiveFloors(tier, f)
 			f.atLeast("nav:floorceil-between", 10000)
 			f.atLeast("nav:floorceil-on-empty", 1000)
 			f.atLeast("nav:floorceil-exact", 10000)
